@@ -290,6 +290,10 @@ func runC15(r *Run) {
 		map[string]*interface{}{"a": &one, "b": &str}, []map[string]interface{}{{"k": 1}, {"k": "s"}}, [][]interface{}{{1}, {"x"}}, []interface{}{[]interface{}{1}, []interface{}{"x"}},
 		[]withIface{{1}, {"s"}}, [2]withIface{{1}, {true}}, map[string][]withIface{"a": {{1}}, "b": {{"s"}}}, map[bool][]interface{}{true: {1}, false: {"x"}},
 		[]*withIface{{1}, {"s"}}, map[string]map[string][]interface{}{"a": {"k": {1}}, "b": {"k": {"x"}}},
+		// no interface anywhere in the static type: an untagged nil-able field is T when set and maybe[T] when nil
+		map[string]struct{ P *int }{"a": {new(int)}, "b": {nil}}, []struct{ P *int }{{new(int)}, {nil}}, []struct{ P *int }{{nil}, {new(int)}},
+		map[string]struct{ L []int }{"a": {[]int{1}}, "b": {nil}}, map[int][]struct{ M map[string]int }{1: {{map[string]int{}}}, 2: {{nil}}},
+		[2]struct{ P *inner }{{&inner{1}}, {nil}}, map[string]*struct{ P *float64 }{"a": {new(float64)}, "b": {nil}},
 	} {
 		for _, wrap := range []func(interface{}) interface{}{
 			func(x interface{}) interface{} { return x },
